@@ -97,6 +97,14 @@ INCLUDES = {
                                                                                       "link.cond": ("symlink", "../outside.cond")}),
     "definestask": ("include('vals.cond')\nrun_command(name='t', run='true')\n", {"vals.cond": "run_command(name='z', run='true')\n"}),
     # ... through every constructor and through the standard-library macro (which defines tasks itself)
+    # well-formed projects in which several combine() definitions are materialised by one command: dependency names are
+    # unique PER combine, not per process
+    "ok_two_combines": ("group(name='t', deps=['//m1:figs', '//m2:figs'])\n",
+                        {"m1/COND": "run_command(name='data', run='true')\ncombine(name='figs', deps=[':data'])\n",
+                         "m2/COND": "run_command(name='data', run='true')\ncombine(name='figs', deps=[':data'])\n"}),
+    "ok_combine_twice": ("run_command(name='d1', run='true')\ncombine(name='results', deps=[':d1'])\n"
+                         "combine(name='report', deps=[':results', ':d1x'])\nrun_command(name='d1x', run='true')\n"
+                         "group(name='t', deps=[':results', ':report'])\n", {}),
     "definestask_exp": ("include('vals.cond')\nrun_command(name='t', run='true')\n", {"vals.cond": "run_experiment(name='z', run='true')\n"}),
     "definestask_group": ("include('vals.cond')\nrun_command(name='t', run='true')\n", {"vals.cond": "group(name='z')\n"}),
     "definestask_combine": ("include('vals.cond')\nrun_command(name='t', run='true')\n", {"vals.cond": "combine(name='z')\n"}),
@@ -300,7 +308,7 @@ def main(tier):
     reps = 2 if tier == "quick" else 6
     for _ in range(reps):
         items += [{"kind": "include", "cls": c} for c in INCLUDES] + [{"kind": "pyfail", "cls": c} for c in PYFAIL]
-        items += [{"kind": "include", "cls": c, "sibling": sb} for c in INCLUDES for sb in (1, 2)
+        items += [{"kind": "include", "cls": c, "sibling": sb} for c in INCLUDES if not c.startswith("ok_t") and not c.startswith("ok_c") for sb in (1, 2)
                   if c not in ("outside", "outsideviasymlink", "okprojectrelative")]
     chunk = max(40, len(items) // (C.NPROC * 3))
     rows = []
